@@ -22,12 +22,13 @@ structure PreOnly (s s' : Sys σ ℝ) : Prop where
   core : s'.core = s.core
   ring : s'.ring = s.ring
   reachedEnd : s'.reachedEnd = s.reachedEnd
+  soundDropped : s'.soundDropped = s.soundDropped
 
-theorem PreOnly.refl (s : Sys σ ℝ) : PreOnly s s := ⟨rfl, rfl, rfl, rfl, rfl⟩
+theorem PreOnly.refl (s : Sys σ ℝ) : PreOnly s s := ⟨rfl, rfl, rfl, rfl, rfl, rfl⟩
 
 theorem PreOnly.trans {a b c : Sys σ ℝ} (h1 : PreOnly a b) (h2 : PreOnly b c) : PreOnly a c :=
   ⟨by rw [h2.errRing, h1.errRing], by rw [h2.encounteredError, h1.encounteredError], by rw [h2.core, h1.core],
-   by rw [h2.ring, h1.ring], by rw [h2.reachedEnd, h1.reachedEnd]⟩
+   by rw [h2.ring, h1.ring], by rw [h2.reachedEnd, h1.reachedEnd], by rw [h2.soundDropped, h1.soundDropped]⟩
 
 theorem seekToIndex_preOnly (D : Decoder σ ℝ) (s : Sys σ ℝ) (i : Nat) :
     match Sys.seekToIndex D s i with
@@ -39,8 +40,8 @@ theorem seekToIndex_preOnly (D : Decoder σ ℝ) (s : Sys σ ℝ) (i : Nat) :
   | ok t =>
     simp only []
     cases Dec.seekToIndex D s.cfg s.ds i with
-    | error e => exact ⟨rfl, rfl, rfl, rfl, rfl⟩
-    | ok ds' => exact ⟨rfl, rfl, rfl, rfl, rfl⟩
+    | error e => exact ⟨rfl, rfl, rfl, rfl, rfl, rfl⟩
+    | ok ds' => exact ⟨rfl, rfl, rfl, rfl, rfl, rfl⟩
 
 theorem readSeekByCmd_preOnly (D : Decoder σ ℝ) (s : Sys σ ℝ) :
     match Sys.readSeekByCmd D s with
@@ -51,7 +52,7 @@ theorem readSeekByCmd_preOnly (D : Decoder σ ℝ) (s : Sys σ ℝ) :
   | none => exact PreOnly.refl s
   | some amount =>
     simp only [Sys.seekBy, Sys.seekTo]
-    have h0 : PreOnly s ({ s with cmds := { s.cmds with seekBy := none } } : Sys σ ℝ) := ⟨rfl, rfl, rfl, rfl, rfl⟩
+    have h0 : PreOnly s ({ s with cmds := { s.cmds with seekBy := none } } : Sys σ ℝ) := ⟨rfl, rfl, rfl, rfl, rfl, rfl⟩
     have := seekToIndex_preOnly D ({ s with cmds := { s.cmds with seekBy := none } } : Sys σ ℝ)
       (KOps.toNatSat (roundHalfAway ((s.sharedPosition + amount) * (KOps.ofNat s.sampleRate : ℝ))))
     revert this
@@ -69,7 +70,7 @@ theorem readSeekToCmd_preOnly (D : Decoder σ ℝ) (s : Sys σ ℝ) :
   | none => exact PreOnly.refl s
   | some position =>
     simp only [Sys.seekTo]
-    have h0 : PreOnly s ({ s with cmds := { s.cmds with seekTo := none } } : Sys σ ℝ) := ⟨rfl, rfl, rfl, rfl, rfl⟩
+    have h0 : PreOnly s ({ s with cmds := { s.cmds with seekTo := none } } : Sys σ ℝ) := ⟨rfl, rfl, rfl, rfl, rfl, rfl⟩
     have := seekToIndex_preOnly D ({ s with cmds := { s.cmds with seekTo := none } } : Sys σ ℝ)
       (KOps.toNatSat (roundHalfAway (position * (KOps.ofNat s.sampleRate : ℝ))))
     revert this
@@ -82,7 +83,7 @@ theorem readLoopCmd_preOnly (s : Sys σ ℝ) : PreOnly s (Sys.readLoopCmd s) := 
   unfold Sys.readLoopCmd
   cases s.cmds.setLoopRegion with
   | none => exact PreOnly.refl s
-  | some r => exact ⟨rfl, rfl, rfl, rfl, rfl⟩
+  | some r => exact ⟨rfl, rfl, rfl, rfl, rfl, rfl⟩
 
 /-- what a whole `run` can do: it never touches the error ring, the error flag or the life-cycle core; it pushes
     exactly one frame when it says `Continue`, at most one otherwise; and it sets `reached_end` only when it says `End` -/
@@ -94,19 +95,20 @@ structure RunFacts (s : Sys σ ℝ) (o : RunOutcome) (s' : Sys σ ℝ) : Prop wh
   pushed : o = .ok .continue → s'.ring.items.length = s.ring.items.length + 1
   grows : s.ring.items.length ≤ s'.ring.items.length
   reached : s'.reachedEnd = true → s.reachedEnd = true ∨ o = .ok .end
+  soundDropped : s'.soundDropped = s.soundDropped
 
 theorem produce_facts (D : Decoder σ ℝ) (fuel : Nat) (s : Sys σ ℝ) :
     RunFacts s (Sys.produce D fuel s).1 (Sys.produce D fuel s).2 := by
   unfold Sys.produce
   cases Dec.frameAtIndex D s.cfg fuel s.ds s.transport.position with
   | error e =>
-    refine ⟨rfl, rfl, rfl, rfl, ?_, Nat.le_refl _, fun h => Or.inl h⟩
+    refine ⟨rfl, rfl, rfl, rfl, ?_, Nat.le_refl _, fun h => Or.inl h, rfl⟩
     intro h; cases e <;> simp [abortOfErr, Abort.outcome] at h
   | ok r =>
     obtain ⟨frame, ds'⟩ := r
     simp only []
     cases hp : s.ring.push ⟨frame, s.transport.position⟩ with
-    | none => exact ⟨rfl, rfl, rfl, rfl, (fun h => by cases h), Nat.le_refl _, fun h => Or.inl h⟩
+    | none => exact ⟨rfl, rfl, rfl, rfl, (fun h => by cases h), Nat.le_refl _, fun h => Or.inl h, rfl⟩
     | some ring' =>
       have hpush : ring'.items = s.ring.items ++ [⟨frame, s.transport.position⟩] ∧ ring'.cap = s.ring.cap := by
         unfold Ring.push at hp
@@ -116,26 +118,27 @@ theorem produce_facts (D : Decoder σ ℝ) (fuel : Nat) (s : Sys σ ℝ) :
       simp only []
       cases s.transport.increment s.cfg.numFrames with
       | error f =>
-        exact ⟨rfl, rfl, rfl, hpush.2, (fun h => by cases h), (by simp [hpush.1]), fun h => Or.inl h⟩
+        exact ⟨rfl, rfl, rfl, hpush.2, (fun h => by cases h), (by simp [hpush.1]), fun h => Or.inl h, rfl⟩
       | ok t =>
         simp only []
         cases ht : t.playing with
         | true =>
           simp only [Bool.not_true, Bool.false_eq_true, if_false]
-          exact ⟨rfl, rfl, rfl, hpush.2, (fun _ => by simp [hpush.1]), (by simp [hpush.1]), fun h => Or.inl h⟩
+          exact ⟨rfl, rfl, rfl, hpush.2, (fun _ => by simp [hpush.1]), (by simp [hpush.1]), fun h => Or.inl h, rfl⟩
         | false =>
           simp only [Bool.not_false, if_true]
-          exact ⟨rfl, rfl, rfl, hpush.2, (fun h => by cases h), (by simp [hpush.1]), fun _ => Or.inr rfl⟩
+          exact ⟨rfl, rfl, rfl, hpush.2, (fun h => by cases h), (by simp [hpush.1]), fun _ => Or.inr rfl, rfl⟩
 
 theorem RunFacts.of_preOnly {s s1 s' : Sys σ ℝ} {o : RunOutcome} (h1 : PreOnly s s1) (h2 : RunFacts s1 o s') :
     RunFacts s o s' :=
   ⟨by rw [h2.errRing, h1.errRing], by rw [h2.encounteredError, h1.encounteredError], by rw [h2.core, h1.core],
    by rw [h2.cap, h1.ring], (fun h => by rw [h2.pushed h, h1.ring]), (by rw [← h1.ring]; exact h2.grows),
-   fun h => by rw [← h1.reachedEnd]; exact h2.reached h⟩
+   fun h => by rw [← h1.reachedEnd]; exact h2.reached h, by rw [h2.soundDropped, h1.soundDropped]⟩
 
 theorem RunFacts.abort {s s' : Sys σ ℝ} (a : Abort) (h : PreOnly s s') : RunFacts s a.outcome s' :=
   ⟨h.errRing, h.encounteredError, h.core, by rw [h.ring],
-   (fun ho => by cases a <;> simp [Abort.outcome] at ho), (by rw [h.ring]), fun hr => by rw [h.reachedEnd] at hr; exact Or.inl hr⟩
+   (fun ho => by cases a <;> simp [Abort.outcome] at ho), (by rw [h.ring]), fun hr => by rw [h.reachedEnd] at hr; exact Or.inl hr,
+   h.soundDropped⟩
 
 /-- **every `run`** -/
 theorem run_facts (D : Decoder σ ℝ) (fuel : Nat) (s : Sys σ ℝ) :
@@ -143,37 +146,84 @@ theorem run_facts (D : Decoder σ ℝ) (fuel : Nat) (s : Sys σ ℝ) :
   unfold Sys.run
   by_cases h0 : s.core.shared = .stopped
   · simp only [h0, if_true]
-    exact ⟨rfl, rfl, rfl, rfl, (fun h => by cases h), Nat.le_refl _, fun h => Or.inl h⟩
+    exact ⟨rfl, rfl, rfl, rfl, (fun h => by cases h), Nat.le_refl _, fun h => Or.inl h, rfl⟩
   · simp only [h0, if_false]
-    by_cases hf : s.ring.isFull = true
-    · simp only [hf, if_true]
-      exact ⟨rfl, rfl, rfl, rfl, (fun h => by cases h), Nat.le_refl _, fun h => Or.inl h⟩
-    · simp only [hf, Bool.false_eq_true, if_false]
-      have hl := readLoopCmd_preOnly s
-      have hb := readSeekByCmd_preOnly D (Sys.readLoopCmd s)
-      revert hb
-      cases Sys.readSeekByCmd D (Sys.readLoopCmd s) with
-      | error p => obtain ⟨a, s'⟩ := p; intro hb; exact RunFacts.abort a (hl.trans hb)
-      | ok s1 =>
-        intro hb
-        simp only []
-        have ht := readSeekToCmd_preOnly D s1
-        revert ht
-        cases Sys.readSeekToCmd D s1 with
-        | error p => obtain ⟨a, s'⟩ := p; intro ht; exact RunFacts.abort a ((hl.trans hb).trans ht)
-        | ok s2 =>
-          intro ht
-          exact RunFacts.of_preOnly ((hl.trans hb).trans ht) (produce_facts D fuel s2)
+    by_cases hd : s.soundDropped = true
+    · simp only [hd, if_true]
+      exact ⟨rfl, rfl, rfl, rfl, (fun h => by cases h), Nat.le_refl _, fun h => Or.inl h, rfl⟩
+    · simp only [hd, Bool.false_eq_true, if_false]
+      by_cases hf : s.ring.isFull = true
+      · simp only [hf, if_true]
+        exact ⟨rfl, rfl, rfl, rfl, (fun h => by cases h), Nat.le_refl _, fun h => Or.inl h, rfl⟩
+      · simp only [hf, Bool.false_eq_true, if_false]
+        have hl := readLoopCmd_preOnly s
+        have hb := readSeekByCmd_preOnly D (Sys.readLoopCmd s)
+        revert hb
+        cases Sys.readSeekByCmd D (Sys.readLoopCmd s) with
+        | error p => obtain ⟨a, s'⟩ := p; intro hb; exact RunFacts.abort a (hl.trans hb)
+        | ok s1 =>
+          intro hb
+          simp only []
+          have ht := readSeekToCmd_preOnly D s1
+          revert ht
+          cases Sys.readSeekToCmd D s1 with
+          | error p => obtain ⟨a, s'⟩ := p; intro ht; exact RunFacts.abort a ((hl.trans hb).trans ht)
+          | ok s2 =>
+            intro ht
+            exact RunFacts.of_preOnly ((hl.trans hb).trans ht) (produce_facts D fuel s2)
 
 /-- a Stopped sound: `run` says `End` at once and changes nothing -/
 theorem run_stopped (D : Decoder σ ℝ) (fuel : Nat) (s : Sys σ ℝ) (h : s.core.shared = .stopped) :
     Sys.run D fuel s = (.ok .end, s) := by
   unfold Sys.run; simp [h]
 
-/-- a full ring: `run` says `Wait` and changes nothing -/
+/-- a sound that was dropped (refused by a full track, discarded with its track or manager): `run` says `End` at
+    once and changes nothing -/
+theorem run_dropped (D : Decoder σ ℝ) (fuel : Nat) (s : Sys σ ℝ) (h : s.soundDropped = true) :
+    Sys.run D fuel s = (.ok .end, s) := by
+  unfold Sys.run; by_cases h0 : s.core.shared = .stopped <;> simp [h0, h]
+
+/-- a full ring (sound neither Stopped nor dropped): `run` says `Wait` and changes nothing -/
 theorem run_full (D : Decoder σ ℝ) (fuel : Nat) (s : Sys σ ℝ) (h0 : s.core.shared ≠ .stopped)
-    (h : s.ring.isFull = true) : Sys.run D fuel s = (.ok .wait, s) := by
-  unfold Sys.run; simp [h0, h]
+    (hd : s.soundDropped = false) (h : s.ring.isFull = true) : Sys.run D fuel s = (.ok .wait, s) := by
+  unfold Sys.run; simp [h0, hd, h]
+
+/-- `produce` never says `Wait` -/
+theorem produce_not_wait (D : Decoder σ ℝ) (fuel : Nat) (s : Sys σ ℝ) : (Sys.produce D fuel s).1 ≠ .ok .wait := by
+  unfold Sys.produce
+  cases Dec.frameAtIndex D s.cfg fuel s.ds s.transport.position with
+  | error e => cases e <;> simp [abortOfErr, Abort.outcome]
+  | ok r =>
+    obtain ⟨frame, ds'⟩ := r
+    simp only []
+    cases s.ring.push ⟨frame, s.transport.position⟩ with
+    | none => simp
+    | some ring' =>
+      simp only []
+      cases s.transport.increment s.cfg.numFrames with
+      | error f => simp
+      | ok t => simp only []; split <;> simp
+
+/-- `Wait` comes from the full-ring test only: nothing was read, nothing changed -/
+theorem run_wait (D : Decoder σ ℝ) (fuel : Nat) (s : Sys σ ℝ) (h : (Sys.run D fuel s).1 = .ok .wait) :
+    (Sys.run D fuel s).2 = s := by
+  unfold Sys.run at h ⊢
+  by_cases h0 : s.core.shared = .stopped
+  · simp [h0] at h
+  · by_cases hd : s.soundDropped = true
+    · simp [h0, hd] at h
+    · by_cases hf : s.ring.isFull = true
+      · simp [h0, hd, hf]
+      · exfalso
+        simp only [h0, hd, hf, if_false, Bool.false_eq_true] at h
+        revert h
+        cases Sys.readSeekByCmd D (Sys.readLoopCmd s) with
+        | error p => obtain ⟨a, s'⟩ := p; cases a <;> simp [Abort.outcome]
+        | ok s1 =>
+          simp only []
+          cases Sys.readSeekToCmd D s1 with
+          | error p => obtain ⟨a, s'⟩ := p; cases a <;> simp [Abort.outcome]
+          | ok s2 => simp only []; exact produce_not_wait D fuel s2
 
 /-! ### what the interpolator sees, at any pace -/
 
@@ -410,25 +460,154 @@ theorem step_pc (D : Dec.Decoder σ ℝ) (fuel : Nat) (l l' : St σ ℝ) (x : La
   | hDrop => simp only [step] at hs; split at hs <;> first | (injection hs with hs; subst hs; rfl) | cases hs
   | abandon => simp only [step] at hs; split at hs <;> first | (injection hs with hs; subst hs; rfl) | cases hs
 
+/-- what a label of another thread leaves alone: the decoder thread's program counter, the error flag, the record
+    of the first error -/
+theorem step_other (D : Dec.Decoder σ ℝ) (fuel : Nat) (l l' : St σ ℝ) (x : Label ℝ) (hx : x ≠ .dStep)
+    (hs : step D fuel l x = some l') :
+    l'.pc = l.pc ∧ l'.sys.encounteredError = l.sys.encounteredError ∧ l'.firstErr = l.firstErr := by
+  refine ⟨step_pc D fuel l l' x hx hs, ?_⟩
+  cases x with
+  | dStep => exact absurd rfl hx
+  | aStart =>
+    simp only [step] at hs
+    split at hs
+    · split at hs
+      · injection hs with hs; subst hs; exact ⟨rfl, rfl⟩
+      · injection hs with hs; subst hs
+        exact ⟨by show l.sys.onStartProcessing.encounteredError = _; rw [onStartProcessing_eq], rfl⟩
+    · cases hs
+  | aProcess len dt info =>
+    simp only [step] at hs
+    split at hs
+    · cases hp : l.sys.process fuel len dt info with
+      | error f => rw [hp] at hs; cases hs
+      | ok r =>
+        obtain ⟨s', outs⟩ := r
+        rw [hp] at hs
+        injection hs with hs; subst hs
+        exact ⟨(process_audioOnly fuel l.sys s' len dt info outs hp).encounteredError, rfl⟩
+    · cases hs
+  | hCmd c => simp only [step] at hs; split at hs <;> first | (injection hs with hs; subst hs; exact ⟨rfl, rfl⟩) | cases hs
+  | hPopError =>
+    simp only [step] at hs
+    split at hs
+    · injection hs with hs; subst hs
+      refine ⟨?_, rfl⟩
+      show (l.sys.popError).2.encounteredError = _
+      unfold Sys.popError; split <;> rfl
+    · cases hs
+  | hDrop => simp only [step] at hs; split at hs <;> first | (injection hs with hs; subst hs; exact ⟨rfl, rfl⟩) | cases hs
+  | abandon => simp only [step] at hs; split at hs <;> first | (injection hs with hs; subst hs; exact ⟨rfl, rfl⟩) | cases hs
+
 /-- has the thread ended (by `break` or by unwinding)? Either way the scheduler, hence the decoder, is dropped -/
 def Pc.gone : Pc → Bool
   | .ended => true
   | .panicked => true
   | _ => false
 
-/-- how many of its own steps a decoder thread needs to end once the sound is Stopped -/
+/-- how many of its own steps a decoder thread needs to end once there is a reason to (the sound is Stopped or was
+    dropped, or a `run` has failed): 1 at the loop top (the next `run` says `End`), 2 right after a failed `run`
+    (error push; flag store + `break`), 1 between the two -/
 def Pc.rank : Pc → Nat
   | .top => 1
-  | .errPending _ => 3
-  | .flagPending => 2
+  | .errPending _ => 2
+  | .flagPending => 1
   | .ended => 0
   | .panicked => 0
 
-theorem dStep_stopped_rank (D : Dec.Decoder σ ℝ) (fuel : Nat) (l : St σ ℝ) (h : IsStopped l.sys) :
+theorem Pc.rank_le_two (pc : Pc) : pc.rank ≤ 2 := by cases pc <;> simp [Pc.rank]
+
+/-! ### a dropped sound stays dropped, a thread that left the loop top never comes back -/
+
+/-- every transition keeps a dropped sound dropped (`is_abandoned()` never becomes false again) -/
+theorem step_dropped (D : Dec.Decoder σ ℝ) (fuel : Nat) (l l' : St σ ℝ) (x : Label ℝ) (h : l.sys.soundDropped = true)
+    (hs : step D fuel l x = some l') : l'.sys.soundDropped = true := by
+  cases x with
+  | dStep =>
+    simp only [step, dStep] at hs
+    cases hpc : l.pc with
+    | top =>
+      simp only [hpc, run_dropped D fuel l.sys h] at hs
+      injection hs with hs; subst hs; exact h
+    | errPending e =>
+      simp only [hpc] at hs; injection hs with hs; subst hs
+      show (l.sys.pushError e).soundDropped = true
+      unfold Sys.pushError; split <;> exact h
+    | flagPending => simp only [hpc] at hs; injection hs with hs; subst hs; exact h
+    | ended => simp [hpc] at hs
+    | panicked => simp [hpc] at hs
+  | aStart =>
+    simp only [step] at hs
+    split at hs
+    · split at hs
+      · injection hs with hs; subst hs; exact h
+      · injection hs with hs; subst hs
+        show l.sys.onStartProcessing.soundDropped = true
+        rw [onStartProcessing_eq]; exact h
+    · cases hs
+  | aProcess len dt info =>
+    simp only [step] at hs
+    split at hs
+    · cases hp : l.sys.process fuel len dt info with
+      | error f => rw [hp] at hs; cases hs
+      | ok r =>
+        obtain ⟨s', outs⟩ := r
+        rw [hp] at hs
+        injection hs with hs; subst hs
+        show s'.soundDropped = true
+        rw [(process_audioOnly fuel l.sys s' len dt info outs hp).soundDropped]; exact h
+    · cases hs
+  | hCmd c => simp only [step] at hs; split at hs <;> first | (injection hs with hs; subst hs; exact h) | cases hs
+  | hPopError =>
+    simp only [step] at hs
+    split at hs
+    · injection hs with hs; subst hs
+      show (l.sys.popError).2.soundDropped = true
+      unfold Sys.popError; split <;> exact h
+    · cases hs
+  | hDrop => simp only [step] at hs; split at hs <;> first | (injection hs with hs; subst hs; exact h) | cases hs
+  | abandon => simp only [step] at hs; split at hs <;> first | (injection hs with hs; subst hs; rfl) | cases hs
+
+/-- the decoder thread never comes back to its loop top once it has left it: after a failed `run` the only way on is
+    error push → flag store → `break` -/
+theorem step_offTop (D : Dec.Decoder σ ℝ) (fuel : Nat) (l l' : St σ ℝ) (x : Label ℝ) (h : l.pc ≠ .top)
+    (hs : step D fuel l x = some l') : l'.pc ≠ .top := by
+  by_cases hx : x = .dStep
+  · subst hx
+    simp only [step, dStep] at hs
+    cases hpc : l.pc with
+    | top => exact absurd hpc h
+    | errPending e => simp only [hpc] at hs; injection hs with hs; subst hs; intro h'; cases h'
+    | flagPending => simp only [hpc] at hs; injection hs with hs; subst hs; intro h'; cases h'
+    | ended => simp [hpc] at hs
+    | panicked => simp [hpc] at hs
+  · rw [step_pc D fuel l l' x hx hs]; exact h
+
+/-- **a reason for the thread to end**: the sound is Stopped, or it was dropped, or the thread has already left its
+    loop top for good (a `run` failed — or it is gone already) -/
+def Ending (l : St σ ℝ) : Prop := IsStopped l.sys ∨ l.sys.soundDropped = true ∨ l.pc ≠ .top
+
+/-- a reason to end never goes away -/
+theorem step_ending (D : Dec.Decoder σ ℝ) (fuel : Nat) (l l' : St σ ℝ) (x : Label ℝ) (h : Ending l)
+    (hs : step D fuel l x = some l') : Ending l' := by
+  rcases h with h | h | h
+  · exact Or.inl (step_stopped D fuel l l' x h hs)
+  · exact Or.inr (Or.inl (step_dropped D fuel l l' x h hs))
+  · exact Or.inr (Or.inr (step_offTop D fuel l l' x h hs))
+
+/-- with a reason to end, every step of the thread takes it one closer to the loop exit -/
+theorem dStep_ending_rank (D : Dec.Decoder σ ℝ) (fuel : Nat) (l : St σ ℝ) (h : Ending l) :
     (l.pc.gone = true ∧ dStep D fuel l = none) ∨ (∃ l', dStep D fuel l = some l' ∧ l'.pc.rank + 1 = l.pc.rank) := by
   unfold dStep
   cases hpc : l.pc with
-  | top => right; simp only [run_stopped D fuel l.sys h.2]; exact ⟨_, rfl, rfl⟩
+  | top =>
+    right
+    have hrun : Sys.run D fuel l.sys = (.ok .end, l.sys) := by
+      rcases h with h | h | h
+      · exact run_stopped D fuel l.sys h.2
+      · exact run_dropped D fuel l.sys h
+      · exact absurd hpc h
+    simp only [hrun]; exact ⟨_, rfl, rfl⟩
   | errPending e => right; exact ⟨_, rfl, rfl⟩
   | flagPending => right; exact ⟨_, rfl, rfl⟩
   | ended => left; exact ⟨rfl, rfl⟩
@@ -440,8 +619,22 @@ def countD : List (Label ℝ) → Nat
   | .dStep :: xs => countD xs + 1
   | _ :: xs => countD xs
 
-theorem runSched_stopped_ends (D : Dec.Decoder σ ℝ) (fuel : Nat) : ∀ (xs : List (Label ℝ)) (l : St σ ℝ),
-    IsStopped l.sys → l.pc.rank ≤ countD xs → (runSched D fuel l xs).pc.gone = true ∧ IsStopped (runSched D fuel l xs).sys := by
+/-- a property every transition keeps is kept by every schedule -/
+theorem runSched_keeps (D : Dec.Decoder σ ℝ) (fuel : Nat) (P : St σ ℝ → Prop)
+    (hP : ∀ l l' x, P l → step D fuel l x = some l' → P l') : ∀ (xs : List (Label ℝ)) (l : St σ ℝ),
+    P l → P (runSched D fuel l xs) := by
+  intro xs
+  induction xs with
+  | nil => intro l h; exact h
+  | cons x xs ih =>
+    intro l h
+    simp only [runSched]
+    cases hs : step D fuel l x with
+    | none => exact ih l h
+    | some l' => exact ih l' (hP l l' x h hs)
+
+theorem runSched_ending_ends (D : Dec.Decoder σ ℝ) (fuel : Nat) : ∀ (xs : List (Label ℝ)) (l : St σ ℝ),
+    Ending l → l.pc.rank ≤ countD xs → (runSched D fuel l xs).pc.gone = true ∧ Ending (runSched D fuel l xs) := by
   intro xs
   induction xs with
   | nil =>
@@ -455,14 +648,14 @@ theorem runSched_stopped_ends (D : Dec.Decoder σ ℝ) (fuel : Nat) : ∀ (xs : 
     by_cases hx : x = .dStep
     · subst hx
       simp only [countD] at hr
-      rcases dStep_stopped_rank D fuel l h with ⟨hg, hn⟩ | ⟨l', hl', hrk⟩
+      rcases dStep_ending_rank D fuel l h with ⟨hg, hn⟩ | ⟨l', hl', hrk⟩
       · have : step D fuel l .dStep = none := hn
         simp only [runSched, this, Option.getD_none]
         have hr0 : l.pc.rank = 0 := by cases hpc : l.pc <;> simp [hpc, Pc.gone] at hg <;> rfl
         exact ih l h (by omega)
       · have : step D fuel l .dStep = some l' := hl'
         simp only [runSched, this, Option.getD_some]
-        exact ih l' (step_stopped D fuel l l' .dStep h this) (by omega)
+        exact ih l' (step_ending D fuel l l' .dStep h this) (by omega)
     · have hc : countD (x :: xs) = countD xs := by cases x <;> first | rfl | exact absurd rfl hx
       rw [hc] at hr
       simp only [runSched]
@@ -471,7 +664,12 @@ theorem runSched_stopped_ends (D : Dec.Decoder σ ℝ) (fuel : Nat) : ∀ (xs : 
       | some l' =>
         simp only [Option.getD_some]
         have hpc := step_pc D fuel l l' x hx hs
-        exact ih l' (step_stopped D fuel l l' x h hs) (by rw [hpc]; exact hr)
+        exact ih l' (step_ending D fuel l l' x h hs) (by rw [hpc]; exact hr)
+
+/-- a Stopped sound is still Stopped after any schedule -/
+theorem runSched_stopped (D : Dec.Decoder σ ℝ) (fuel : Nat) (xs : List (Label ℝ)) (l : St σ ℝ) (h : IsStopped l.sys) :
+    IsStopped (runSched D fuel l xs).sys :=
+  runSched_keeps D fuel (fun l => IsStopped l.sys) (fun l l' x h hs => step_stopped D fuel l l' x h hs) xs l h
 
 
 /-! ### invariants of every reachable state -/
@@ -662,7 +860,7 @@ theorem inv_step (D : Dec.Decoder σ ℝ) (fuel : Nat) (l l' : St σ ℝ) (x : L
         cases hre : l.sys.reachedEnd with
         | false => rfl
         | true => have := I.endEnded hre; rw [hpc] at this; cases this
-      exact { endEnded := fun h => by rw [show ({ l with sys := l.sys.setErrorFlag, pc := Pc.top, iters := l.iters + 1 } : St σ ℝ).sys.reachedEnd = l.sys.reachedEnd from rfl, hnotEnd] at h; cases h
+      exact { endEnded := fun _ => rfl
               errCap := I.errCap
               errSome := fun e he => by cases he
               errRing := fun hp => Or.inr (I.flagged hp (Or.inl hpc))
@@ -757,7 +955,89 @@ theorem inv_reachable (D : Dec.Decoder σ ℝ) (fuel : Nat) (sys0 : Sys σ ℝ) 
   | step x _ hs ih => exact inv_step D fuel _ _ x ih hs
 
 
-/-! ### the two witnesses -/
+/-! ### after the first error: no further decoder call, and the flag means the thread is gone -/
+
+/-- a second invariant of every reachable state -/
+structure Once (l : St σ ℝ) : Prop where
+  /-- the error flag is stored in the very step that `break`s -/
+  flagEnded : l.sys.encounteredError = true → l.pc = .ended
+  /-- once a `run` has returned an error the thread is never at its loop top again: `run` — hence the decoder — is
+      never called again -/
+  errOnce : l.firstErr ≠ none → l.pc ≠ .top
+
+theorem once_init (sys0 : Sys σ ℝ) (h : Fresh sys0) : Once (St.init sys0) :=
+  { flagEnded := fun hf => by
+      rw [show (St.init sys0).sys.encounteredError = sys0.encounteredError from rfl, h.encounteredError] at hf; cases hf
+    errOnce := fun hf => absurd rfl hf }
+
+theorem once_step (D : Dec.Decoder σ ℝ) (fuel : Nat) (l l' : St σ ℝ) (x : Label ℝ) (I : Once l)
+    (hs : step D fuel l x = some l') : Once l' := by
+  by_cases hx : x = .dStep
+  · subst hx
+    simp only [step, dStep] at hs
+    cases hpc : l.pc with
+    | top =>
+      simp only [hpc] at hs
+      have hflag : l.sys.encounteredError = false := by
+        cases hf : l.sys.encounteredError with
+        | false => rfl
+        | true => have := I.flagEnded hf; rw [hpc] at this; cases this
+      have hfirst : l.firstErr = none := by
+        cases hf : l.firstErr with
+        | none => rfl
+        | some e => exact absurd hpc (I.errOnce (by rw [hf]; intro h; cases h))
+      have F := run_facts D fuel l.sys
+      generalize Sys.run D fuel l.sys = r at hs F
+      obtain ⟨o, s'⟩ := r
+      simp only [] at hs F
+      have hflag' : s'.encounteredError = false := by rw [F.encounteredError]; exact hflag
+      cases o with
+      | ok n =>
+        cases n with
+        | «continue» =>
+          simp only [] at hs; injection hs with hs; subst hs
+          exact ⟨fun hf => (by rw [show s'.encounteredError = false from hflag'] at hf; cases hf),
+                 fun hf => absurd hfirst hf⟩
+        | wait =>
+          simp only [] at hs; injection hs with hs; subst hs
+          exact ⟨fun hf => (by rw [show s'.encounteredError = false from hflag'] at hf; cases hf),
+                 fun hf => absurd hfirst hf⟩
+        | «end» =>
+          simp only [] at hs; injection hs with hs; subst hs
+          exact ⟨fun _ => rfl, fun _ h => (by cases h)⟩
+      | err e =>
+        simp only [] at hs; injection hs with hs; subst hs
+        exact ⟨fun hf => (by rw [show s'.encounteredError = false from hflag'] at hf; cases hf), fun _ h => (by cases h)⟩
+      | fault f =>
+        simp only [] at hs; injection hs with hs; subst hs
+        exact ⟨fun hf => (by rw [show s'.encounteredError = false from hflag'] at hf; cases hf), fun _ h => (by cases h)⟩
+    | errPending e =>
+      simp only [hpc] at hs; injection hs with hs; subst hs
+      have hflag : l.sys.encounteredError = false := by
+        cases hf : l.sys.encounteredError with
+        | false => rfl
+        | true => have := I.flagEnded hf; rw [hpc] at this; cases this
+      have hpush : (l.sys.pushError e).encounteredError = l.sys.encounteredError := by
+        unfold Sys.pushError; split <;> rfl
+      exact ⟨fun hf => (by rw [show (l.sys.pushError e).encounteredError = false from hpush.trans hflag] at hf; cases hf),
+             fun _ h => (by cases h)⟩
+    | flagPending =>
+      simp only [hpc] at hs; injection hs with hs; subst hs
+      exact ⟨fun _ => rfl, fun _ h => (by cases h)⟩
+    | ended => simp [hpc] at hs
+    | panicked => simp [hpc] at hs
+  · obtain ⟨h1, h2, h3⟩ := step_other D fuel l l' x hx hs
+    exact ⟨fun hf => (by rw [h1]; exact I.flagEnded (by rw [← h2]; exact hf)),
+           fun hf => by rw [h1]; exact I.errOnce (by rw [← h3]; exact hf)⟩
+
+theorem once_reachable (D : Dec.Decoder σ ℝ) (fuel : Nat) (sys0 : Sys σ ℝ) (h0 : Fresh sys0) (l : St σ ℝ)
+    (hr : Reachable D fuel sys0 l) : Once l := by
+  induction hr with
+  | init => exact once_init sys0 h0
+  | step x _ hs ih => exact once_step D fuel _ _ x ih hs
+
+
+/-! ### two concrete sounds (non-vacuity; they were the witnesses of the two defects before the repair) -/
 
 /-- a decoder of one silent frame (one packet; every seek lands on frame 0) -/
 def oneDecoder : Dec.Decoder Unit ℝ where
@@ -774,7 +1054,7 @@ noncomputable def loopData : StreamingSoundData Unit ℝ :=
 /-- the looping sound with `items` in its ring and decoder-facing state `ds` -/
 noncomputable def loopSys (items : List (TimestampedFrame ℝ)) (ds : Dec.Sched Unit ℝ) : Sys Unit ℝ :=
   { cfg := ⟨none, 1⟩, sampleRate := 1, cmds := {}, ring := { cap := bufferSize, items := items }
-    errRing := Ring.new errorBufferCapacity, reachedEnd := false, encounteredError := false
+    errRing := Ring.new errorBufferCapacity, reachedEnd := false, encounteredError := false, soundDropped := false
     sharedPosition := (KOps.ofNat 0 : ℝ) / (KOps.ofNat 1 : ℝ), ds := ds
     transport := { position := 0, loopRegion := some (0, 1), playing := true }
     core := SoundCore.new .immediate none, currentFrame := 0, frac := (0.0 : ℝ)
@@ -796,52 +1076,15 @@ theorem loop_run (fuel : Nat) (items : List (TimestampedFrame ℝ)) (ds : Dec.Sc
   have hshared : (loopSys items ds).core.shared ≠ .stopped := by simp [loopSys, SoundCore.new]
   by_cases hfull : bufferSize ≤ items.length
   · simp only [hfull, if_true]
-    exact run_full oneDecoder (fuel + 1) _ hshared (by simp [loopSys, Ring.isFull, hfull])
+    exact run_full oneDecoder (fuel + 1) _ hshared rfl (by simp [loopSys, Ring.isFull, hfull])
   · simp only [hfull, if_false]
-    rw [run_eq_produce oneDecoder (fuel + 1) _ hshared (by simp [loopSys, Ring.isFull, hfull]) rfl rfl rfl]
+    rw [run_eq_produce oneDecoder (fuel + 1) _ hshared rfl (by simp [loopSys, Ring.isFull, hfull]) rfl rfl rfl]
     have hlt : items.length < bufferSize := by omega
     rcases hds with rfl | rfl
     · simp [Sys.produce, loopSys, ds0, ds1, Dec.frameAtIndex, Dec.decodeUntil, oneDecoder, Dec.Chunk.frameAt, Ring.push,
         hlt, Transport.increment, Transport.incWrap, wrapDown, Frame.zero]
     · simp [Sys.produce, loopSys, ds1, Dec.frameAtIndex, Dec.Chunk.frameAt, Ring.push,
         hlt, Transport.increment, Transport.incWrap, wrapDown, Frame.zero]
-
-/-- the abandoned sound: nobody owns the `Box<dyn Sound>`, nobody holds the handle, the thread is at its loop top -/
-def Abandoned (l : St Unit ℝ) : Prop :=
-  l.pc = .top ∧ l.place = .abandoned ∧ l.handle = false ∧
-  ∃ items ds, (ds = ds0 ∨ ds = ds1) ∧ l.sys = loopSys items ds
-
-theorem abandoned_step (fuel : Nat) (l l' : St Unit ℝ) (x : Label ℝ) (h : Abandoned l)
-    (hs : step oneDecoder (fuel + 1) l x = some l') : Abandoned l' := by
-  obtain ⟨hpc, hpl, hh, items, ds, hds, hsys⟩ := h
-  cases x with
-  | dStep =>
-    simp only [step, dStep, hpc, hsys, loop_run fuel items ds hds] at hs
-    by_cases hfull : bufferSize ≤ items.length
-    · simp only [hfull, if_true] at hs
-      injection hs with hs; subst hs
-      exact ⟨rfl, hpl, hh, items, ds, hds, rfl⟩
-    · simp only [hfull, if_false] at hs
-      injection hs with hs; subst hs
-      exact ⟨rfl, hpl, hh, _, ds1, Or.inr rfl, rfl⟩
-  | aStart => simp [step, hpl] at hs
-  | aProcess len dt info => simp [step, hpl] at hs
-  | hCmd c => simp [step, hh] at hs
-  | hPopError => simp [step, hh] at hs
-  | hDrop => simp [step, hh] at hs
-  | abandon => simp [step, hpl] at hs
-
-theorem abandoned_run (fuel : Nat) : ∀ (xs : List (Label ℝ)) (l : St Unit ℝ), Abandoned l →
-    Abandoned (runSched oneDecoder (fuel + 1) l xs) := by
-  intro xs
-  induction xs with
-  | nil => intro l h; exact h
-  | cons x xs ih =>
-    intro l h
-    simp only [runSched]
-    cases hs : step oneDecoder (fuel + 1) l x with
-    | none => exact ih l h
-    | some l' => exact ih l' (abandoned_step fuel l l' x h hs)
 
 /-- a decoder whose every call fails (a broken stream) -/
 def failDecoder : Dec.Decoder Unit ℝ where
@@ -855,10 +1098,11 @@ noncomputable def spinSys (er : Ring Wav.Err) (flag : Bool) : Sys Unit ℝ :=
 theorem spin_run (fuel : Nat) (er : Ring Wav.Err) (flag : Bool) :
     Sys.run failDecoder (fuel + 1) (spinSys er flag) = (.err .sym, spinSys er flag) := by
   have hshared : (spinSys er flag).core.shared ≠ .stopped := by simp [spinSys, loopSys, SoundCore.new]
-  rw [run_eq_produce failDecoder (fuel + 1) _ hshared (by simp [spinSys, loopSys, Ring.isFull, bufferSize]) rfl rfl rfl]
+  rw [run_eq_produce failDecoder (fuel + 1) _ hshared rfl (by simp [spinSys, loopSys, Ring.isFull, bufferSize]) rfl rfl rfl]
   simp [Sys.produce, spinSys, loopSys, ds0, Dec.frameAtIndex, Dec.decodeUntil, failDecoder, abortOfErr, Abort.outcome]
 
-/-- one loop iteration of the failing sound: an error, no frame pushed, no sleep, no end — and the same again -/
+/-- one loop iteration of the failing sound: an error, no frame pushed — reported (pushed if the slot is free, flag
+    set); the thread ends with it -/
 theorem spin_iter (fuel : Nat) (er : Ring Wav.Err) (flag : Bool) :
     ∃ er', Sys.threadIter failDecoder (fuel + 1) (spinSys er flag) = (.erred, spinSys er' true) := by
   unfold Sys.threadIter
